@@ -91,7 +91,12 @@ SPEC = TreeSpec(
 
 
 def run(ctx: Ctx) -> Report:
-    return run_tree_property(ctx, __name__, SPEC)
+    from ..selftest import run_selftest
+
+    n_vectors = run_selftest()
+    rep = run_tree_property(ctx, __name__, SPEC)
+    rep.extra["reference_codec_selftest_vectors"] = n_vectors
+    return rep
 
 
 def replay(case):
